@@ -418,7 +418,7 @@ Proof. intros; unfold uts_item; walk. Qed.
 Lemma pfz_logfail : forall t evt, preserves Rf (uts_logfail t evt).
 Proof. intros; unfold uts_logfail; walk. Qed.
 (* the completion step writes no record *)
-Lemma pfz_completion : forall t route evt ts idx ns, preserves Rf (uts_completion ev t route evt ts idx ns).
+Lemma pfz_completion : forall t route evt ts idx ns o0, preserves Rf (uts_completion ev t route evt ts idx ns o0).
 Proof. intros; unfold uts_completion; walk. Qed.
 Hint Resolve pfz_completion : presfz.
 
@@ -477,13 +477,13 @@ Definition PostP (res : result pre_out) : Prop := forall p, res = Val p -> tail_
 Lemma PostP_exc : forall e, PostP (Exc e).
 Proof. intros e p H; discriminate. Qed.
 
-(* the task machine on the frozen record itself: a non-retry event leaves it as it is, and with no
-   retry left the completion step does not decide to retry *)
+(* the task machine on the frozen record itself: a non-retry event leaves it as it is, and -- D33: the status did not
+   change -- the completion step does not decide to retry, whatever retries are left *)
 Lemma pre_machine_same : forall t route evt ts c c' res,
-  is_retry_event evt = false -> ~ retry_open r0 ->
+  is_retry_event evt = false ->
   pre_machine ev t route evt ts i c = (c', res) -> Fz c -> Fz c' /\ PostP res.
 Proof.
-  intros t route evt ts c c' res Hne Hno H Hf. unfold pre_machine in H.
+  intros t route evt ts c c' res Hne H Hf. unfold pre_machine in H.
   eapply bind_fz; [exact H|exact Hf|apply pfz_get_rec|apply PostP_exc|]. clear H Hf.
   intros c1 r E Hf H. apply get_rec_inv in E; destruct E as [-> Hr].
   pose proof (Fz_status _ _ Hf Hr) as Sr.
@@ -507,19 +507,17 @@ Proof.
   intros c2 compl E Hf2 H. inversion H; subst c' res; clear H.
   split; [exact Hf2|]. intros p Hp; inversion Hp; subst p; clear Hp. right. cbn [po_new po_old po_compl].
   split; [reflexivity|]. intros ctx b Hc.
-  destruct (completion_inv _ _ _ _ _ _ _ _ _ _ E) as [[_ [Hn _]]|[_ [c3 [r3 [ctx3 [b3 [[Ks _] [_ [Hr3 [Hc3 [Hb _]]]]]]]]]]].
+  destruct (completion_inv _ _ _ _ _ _ _ _ _ _ _ E) as [[_ [Hn _]]|[_ [c3 [r3 [ctx3 [b3 [_ [_ [_ [Hc3 [_ [_ Hdiff]]]]]]]]]]]].
   - rewrite Hn in Hc; discriminate.
   - rewrite Hc3 in Hc; inversion Hc; subst ctx3 b3. destruct b; [exfalso|reflexivity].
-    destruct (Hb eq_refl) as [_ [_ Ha]]. rewrite Ks, Hr in Hr3; inversion Hr3; subst r3.
-    destruct (Ha eq_refl) as [rr [Hrr [Hi Hlt]]]. apply Hno. exists rr.
-    destruct Sr as [_ [_ [_ [_ [_ [_ [_ Sret]]]]]]]. rewrite <- Sret. repeat split; assumption.
+    apply (Hdiff eq_refl). reflexivity.
 Qed.
 
 (* when the event may be delivered without touching the frozen record *)
 Definition sel_ok (t : string) (evt : event) (s0 : option stg) (e0 : option nat) : Prop :=
   e0 <> Some i \/ is_engine_command t = true \/
   (status_in (ev_status evt) STARTING_STATUSES = true /\ exists s, s0 = Some s /\ s_completed s = false) \/
-  (is_retry_event evt = false /\ ~ retry_open r0).
+  is_retry_event evt = false.
 
 Lemma fresh_not_frozen : forall t rt ins prev c c' idx,
   add_task_state ev t rt ins prev c = (c', Val idx) -> Fz c' -> idx <> i.
@@ -541,7 +539,7 @@ Proof.
   intros c1' r1 E Hf1' H. apply get_rec_inv in E; destruct E as [-> Hr1]. clear Hf1'.
   eapply bind_fz; [exact H|exact Hf1|apply pfz_sel2|apply PostP_exc|]. clear H.
   intros c2 idx E2 Hf2 H.
-  assert (A2 : idx <> i \/ (is_retry_event evt = false /\ ~ retry_open r0)).
+  assert (A2 : idx <> i \/ is_retry_event evt = false).
   { unfold uts_sel2 in E2.
     destruct (ostatus_in (r_status r1) COMPLETED_STATUSES && status_in (ev_status evt) STARTING_STATUSES
               && match s0 with Some s1 => negb (s_completed s1) | None => false end) eqn:Ec.
@@ -558,22 +556,22 @@ Proof.
   eapply bind_fz; [exact H|exact Hf4|apply pfz_logfail|apply PostP_exc|]. clear H.
   intros c5 u5 _ Hf5 H.
   destruct (Nat.eq_dec idx i) as [->|Hn].
-  - destruct A2 as [A2|[Hne Hno]]; [congruence|]. eapply pre_machine_same; eassumption.
+  - destruct A2 as [A2|Hne]; [congruence|]. eapply pre_machine_same; eassumption.
   - split; [eapply (pfz_pre_machine_o idx Hn); [exact H|exact Hf5]|].
     intros p Hp; subst res. left.
     destruct (pre_machine_inv _ _ _ _ _ _ _ _ _ H) as [r [ns [ca [cb Hx]]]].
     decompose [and] Hx. congruence.
 Qed.
 
-(* the same, stated on the conductor state the call starts in *)
-Definition safe (c : cstate) (t : string) (route : nat) (evt : event) : Prop :=
+(* the same, stated on the conductor state the call starts in (D33: whatever retries the record has left) *)
+Definition safe_w (c : cstate) (t : string) (route : nat) (evt : event) : Prop :=
   ws_task_idx (c_ws c) t route <> Some i \/ is_engine_command t = true \/
   (c_init c = true /\ status_in (ev_status evt) STARTING_STATUSES = true /\
    exists s, get_staged_task (c_ws c) t route = Some s /\ s_completed s = false) \/
-  (is_retry_event evt = false /\ ~ retry_open r0).
+  is_retry_event evt = false.
 
 Lemma prefix_fz : forall t route evt c c' res,
-  uts_prefix ev t route evt c = (c', res) -> Fz c -> safe c t route evt -> Fz c' /\ PostP res.
+  uts_prefix ev t route evt c = (c', res) -> Fz c -> safe_w c t route evt -> Fz c' /\ PostP res.
 Proof.
   intros t route evt c c' res H Hf Hs. unfold uts_prefix in H.
   eapply bind_fz; [exact H|exact Hf|apply pfz_ensure_ws|apply PostP_exc|].
@@ -606,7 +604,7 @@ Proof.
   destruct (pre_machine_inv _ _ _ _ _ _ _ _ _ Hm) as [r1 [ns [ca [cb Hx]]]].
   destruct Hx as [Hr1 [_ [_ [_ [Hta [_ [Ert [Eco [_ [Hidx [_ Hnew]]]]]]]]]]].
   rewrite Hidx.
-  destruct (completion_inv _ _ _ _ _ _ _ _ _ _ Eco) as [[_ [Hn _]]|[Hcs [c4 [r4 [ctx4 [b4 [[_ Kt] [_ [_ [Hc4 [Hb _]]]]]]]]]]].
+  destruct (completion_inv _ _ _ _ _ _ _ _ _ _ _ Eco) as [[_ [Hn _]]|[Hcs [c4 [r4 [ctx4 [b4 [[_ Kt] [_ [_ [Hc4 [Hb _]]]]]]]]]]].
   - rewrite Hn in Hc; discriminate.
   - rewrite Hc4 in Hc; inversion Hc; subst ctx4 b4. destruct (Hb eq_refl) as [-> _].
     assert (cb = ca) as ->.
@@ -616,7 +614,7 @@ Qed.
 
 (* the tail, given that nested calls keep the invariant *)
 Lemma tail_fz : forall rec,
-  (forall t route evt c c' res, rec t route evt c = (c', res) -> Fz c -> safe c t route evt -> Fz c') ->
+  (forall t route evt c c' res, rec t route evt c = (c', res) -> Fz c -> safe_w c t route evt -> Fz c') ->
   forall t route p c c' res, tail_of ev rec t route p c = (c', res) -> Fz c -> tail_ok p ->
   (forall ctx, po_compl p = Some (ctx, true) -> ws_task_idx (c_ws c) t route = Some (po_idx p)) -> Fz c'.
 Proof.
@@ -672,8 +670,8 @@ Proof.
 Qed.
 
 (* MAIN LEMMA: a call of update_task_state, to any depth, keeps the frozen record *)
-Lemma uts_frozen : forall fuel t route evt c c' res,
-  update_task_state_fuel ev fuel t route evt c = (c', res) -> Fz c -> safe c t route evt -> Fz c'.
+Lemma uts_frozen_w : forall fuel t route evt c c' res,
+  update_task_state_fuel ev fuel t route evt c = (c', res) -> Fz c -> safe_w c t route evt -> Fz c'.
 Proof.
   induction fuel as [|fuel IH]; intros t route evt c c' res H Hf Hs.
   - simpl in H. inversion H; subst; exact Hf.
@@ -687,42 +685,77 @@ Qed.
 
 (* ---- every API operation ---- *)
 
+Definition op_safe_w (c : cstate) (op : api_op) : Prop :=
+  match op with
+  | OpEvent t route evt => safe_w c t route evt
+  | OpPersist => c_init c = true
+  | _ => True
+  end.
+
+Theorem api_frozen_w : forall op c c' res, op_safe_w c op -> api_exec ev op c = (c', res) -> Fz c -> Fz c'.
+Proof.
+  intros op c c' res Hs H Hf.
+  assert (G : forall (m : M unit), preserves Rf m -> (bind m (fun _ => ret RUnit)) c = (c', res) -> Fz c').
+  { intros m Hm Hb. eapply (preserves_bind _ Rf_trans); [exact Hm|intro; apply (preserves_ret _ Rf_refl)|exact Hb|exact Hf]. }
+  destruct op; cbn [api_exec] in H; cbn [op_safe_w] in Hs.
+  - eapply G; [apply pfz_ensure_ws|exact H].
+  - eapply G; [apply pfz_request_workflow_status|exact H].
+  - eapply (preserves_bind _ Rf_trans); [apply pfz_get_next_tasks|intro; apply (preserves_ret _ Rf_refl)|exact H|exact Hf].
+  - apply bind_inv in H. destruct H as [[c1 [u [E H]]]|[e0 [E _]]].
+    + inversion H; subst c1. eapply uts_frozen_w; [exact E|exact Hf|exact Hs].
+    + eapply uts_frozen_w; [exact E|exact Hf|exact Hs].
+  - eapply G; [apply pfz_render_workflow_output|exact H].
+  - eapply G; [apply pfz_request_workflow_rerun|exact H].
+  - unfold bind in H. rewrite (persist_identity ev c Hs) in H. inversion H; subst; exact Hf.
+Qed.
+
+Fixpoint hist_safe_w (ops : list api_op) (c : cstate) : Prop :=
+  match ops with
+  | [] => True
+  | op :: ops' => op_safe_w c op /\ hist_safe_w ops' (fst (api_exec ev op c))
+  end.
+
+Theorem history_frozen_w : forall ops c, hist_safe_w ops c -> Fz c -> Fz (run_ops ev ops c).
+Proof.
+  induction ops as [|op ops IH]; intros c Hs Hf; cbn [run_ops fold_left]; [exact Hf|].
+  destruct Hs as [Ho Hs]. apply IH; [exact Hs|].
+  destruct (api_exec ev op c) as [c1 r] eqn:E. cbn [fst]. eapply api_frozen_w; eassumption.
+Qed.
+
+(* the hypothesis as it was needed before the engine fix D33 (a completed record with a retry left was reopened by a
+   duplicate report): it asks that the record has no retry left; kept, and implied theorems derived *)
+Definition safe (c : cstate) (t : string) (route : nat) (evt : event) : Prop :=
+  ws_task_idx (c_ws c) t route <> Some i \/ is_engine_command t = true \/
+  (c_init c = true /\ status_in (ev_status evt) STARTING_STATUSES = true /\
+   exists s, get_staged_task (c_ws c) t route = Some s /\ s_completed s = false) \/
+  (is_retry_event evt = false /\ ~ retry_open r0).
+Lemma safe_weaken : forall c t route evt, safe c t route evt -> safe_w c t route evt.
+Proof. intros c t route evt [H|[H|[H|[H _]]]]; [left|right; left|right; right; left|right; right; right]; exact H. Qed.
+Lemma uts_frozen : forall fuel t route evt c c' res,
+  update_task_state_fuel ev fuel t route evt c = (c', res) -> Fz c -> safe c t route evt -> Fz c'.
+Proof. intros fuel t route evt c c' res H Hf Hs. eapply uts_frozen_w; [exact H|exact Hf|apply safe_weaken; exact Hs]. Qed.
 Definition op_safe (c : cstate) (op : api_op) : Prop :=
   match op with
   | OpEvent t route evt => safe c t route evt
   | OpPersist => c_init c = true
   | _ => True
   end.
-
+Lemma op_safe_weaken : forall c op, op_safe c op -> op_safe_w c op.
+Proof. intros c op H. destruct op; try exact H. apply safe_weaken; exact H. Qed.
 Theorem api_frozen : forall op c c' res, op_safe c op -> api_exec ev op c = (c', res) -> Fz c -> Fz c'.
-Proof.
-  intros op c c' res Hs H Hf.
-  assert (G : forall (m : M unit), preserves Rf m -> (bind m (fun _ => ret RUnit)) c = (c', res) -> Fz c').
-  { intros m Hm Hb. eapply (preserves_bind _ Rf_trans); [exact Hm|intro; apply (preserves_ret _ Rf_refl)|exact Hb|exact Hf]. }
-  destruct op; cbn [api_exec] in H; cbn [op_safe] in Hs.
-  - eapply G; [apply pfz_ensure_ws|exact H].
-  - eapply G; [apply pfz_request_workflow_status|exact H].
-  - eapply (preserves_bind _ Rf_trans); [apply pfz_get_next_tasks|intro; apply (preserves_ret _ Rf_refl)|exact H|exact Hf].
-  - apply bind_inv in H. destruct H as [[c1 [u [E H]]]|[e0 [E _]]].
-    + inversion H; subst c1. eapply uts_frozen; [exact E|exact Hf|exact Hs].
-    + eapply uts_frozen; [exact E|exact Hf|exact Hs].
-  - eapply G; [apply pfz_render_workflow_output|exact H].
-  - eapply G; [apply pfz_request_workflow_rerun|exact H].
-  - unfold bind in H. rewrite (persist_identity ev c Hs) in H. inversion H; subst; exact Hf.
-Qed.
-
+Proof. intros op c c' res Hs. apply api_frozen_w. apply op_safe_weaken; exact Hs. Qed.
 Fixpoint hist_safe (ops : list api_op) (c : cstate) : Prop :=
   match ops with
   | [] => True
   | op :: ops' => op_safe c op /\ hist_safe ops' (fst (api_exec ev op c))
   end.
-
-Theorem history_frozen : forall ops c, hist_safe ops c -> Fz c -> Fz (run_ops ev ops c).
+Lemma hist_safe_weaken : forall ops c, hist_safe ops c -> hist_safe_w ops c.
 Proof.
-  induction ops as [|op ops IH]; intros c Hs Hf; cbn [run_ops fold_left]; [exact Hf|].
-  destruct Hs as [Ho Hs]. apply IH; [exact Hs|].
-  destruct (api_exec ev op c) as [c1 r] eqn:E. cbn [fst]. eapply api_frozen; eassumption.
+  induction ops as [|op ops IH]; intros c H; [exact I|]. destruct H as [H1 H2].
+  split; [apply op_safe_weaken; exact H1|apply IH; exact H2].
 Qed.
+Theorem history_frozen : forall ops c, hist_safe ops c -> Fz c -> Fz (run_ops ev ops c).
+Proof. intros ops c H. apply history_frozen_w. apply hist_safe_weaken; exact H. Qed.
 
 (* a hypothesis that does not mention intermediate states: the record has no retry left and no
    operation injects the engine's internal retry event *)
@@ -733,6 +766,21 @@ Definition op_static (op : api_op) : bool :=
   | _ => true
   end.
 
+Lemma op_static_safe_w : forall op c, op_static op = true -> op_safe_w c op.
+Proof.
+  intros op c H. destruct op; cbn [op_safe_w]; try exact I; [|discriminate].
+  right; right; right. simpl in H. destruct (is_retry_event e); [discriminate|reflexivity].
+Qed.
+
+(* D33: no hypothesis on the retries left *)
+Theorem history_frozen_static_w : forall ops c, forallb op_static ops = true -> Fz c -> Fz (run_ops ev ops c).
+Proof.
+  intros ops c H Hf. apply history_frozen_w; [|exact Hf]. clear Hf. revert c.
+  induction ops as [|op ops IH]; intro c; cbn [hist_safe_w]; [exact I|].
+  simpl in H. apply andb_prop in H. destruct H as [H1 H2].
+  split; [apply op_static_safe_w; assumption|apply IH; exact H2].
+Qed.
+
 Lemma op_static_safe : forall op c, ~ retry_open r0 -> op_static op = true -> op_safe c op.
 Proof.
   intros op c Hno H. destruct op; cbn [op_safe]; try exact I; [|discriminate].
@@ -741,12 +789,7 @@ Qed.
 
 Theorem history_frozen_static : forall ops c, ~ retry_open r0 -> forallb op_static ops = true ->
   Fz c -> Fz (run_ops ev ops c).
-Proof.
-  intros ops c Hno H Hf. apply history_frozen; [|exact Hf]. clear Hf. revert c.
-  induction ops as [|op ops IH]; intro c; cbn [hist_safe]; [exact I|].
-  simpl in H. apply andb_prop in H. destruct H as [H1 H2].
-  split; [apply op_static_safe; assumption|apply IH; exact H2].
-Qed.
+Proof. intros ops c _. apply history_frozen_static_w. Qed.
 End WithEval.
 End Frozen.
 
@@ -770,6 +813,25 @@ Theorem decided_record_frozen_history : forall ops c i r,
   exists r', nth_error (sequence (c_ws (run_ops ev ops c))) i = Some r' /\ same_decided r r'.
 Proof.
   intros ops c i r Hn Hd Hs. apply (history_frozen i r Hd ev ops c Hs). exists r; split; [exact Hn|apply sd_refl].
+Qed.
+
+(* D33: the general forms need no hypothesis on the retries left (safe_w / op_safe_w / hist_safe_w ask, of an event
+   that addresses the record, only that it is not the internal retry event) *)
+Theorem decided_record_frozen_step_w : forall op c c' res i r,
+  nth_error (sequence (c_ws c)) i = Some r -> decided r ->
+  op_safe_w i c op -> api_exec ev op c = (c', res) ->
+  exists r', nth_error (sequence (c_ws c')) i = Some r' /\ same_decided r r'.
+Proof.
+  intros op c c' res i r Hn Hd Hs H.
+  apply (api_frozen_w i r Hd ev op c c' res Hs H). exists r; split; [exact Hn|apply sd_refl].
+Qed.
+
+Theorem decided_record_frozen_always : forall ops c i r,
+  nth_error (sequence (c_ws c)) i = Some r -> decided r -> forallb op_static ops = true ->
+  exists r', nth_error (sequence (c_ws (run_ops ev ops c))) i = Some r' /\ same_decided r r'.
+Proof.
+  intros ops c i r Hn Hd H. apply (history_frozen_static_w i r Hd ev ops c H).
+  exists r; split; [exact Hn|apply sd_refl].
 Qed.
 
 Theorem decided_record_frozen : forall ops c i r,
@@ -1125,26 +1187,29 @@ Example w_decided_state :
   = ([(Some S_SUCCEEDED, [(("t2", 0), true)], Some (("t2", 0), 1), false)], S_RUNNING, ["t2"], 2).
 Proof. vm_compute. reflexivity. Qed.
 
-(* the duplicate report reopens the decided record (t2 stays staged from the first decision) ... *)
-Example w_late_report_reopens :
+(* D33 (engine fix mirrored in the model): the retry of a completed task is evaluated only when the report changed
+   its status.  Before the fix the duplicate report reopened the decided record (retrying, t1 staged again) and the
+   next attempt rewrote its status (failed) and its decision (false); that was the refutation recorded here
+   (decided_record_not_frozen_with_retries_left).  Now the duplicate report is absorbed ... *)
+Example w_late_report_absorbed :
   w_obs (run_ops ev_w [w_late] (w_decided w_retry))
-  = ([(Some S_RETRYING, [(("t2", 0), true)], Some (("t2", 0), 1), false)], S_RUNNING, ["t2"; "t1"], 2).
+  = ([(Some S_SUCCEEDED, [(("t2", 0), true)], Some (("t2", 0), 1), false)], S_RUNNING, ["t2"], 2).
 Proof. vm_compute. reflexivity. Qed.
 
-(* ... and its status and decision are then rewritten *)
-Example w_decision_rewritten :
+(* ... and so are the reports of the attempt that is never offered *)
+Example w_decision_kept :
   w_obs (run_ops ev_w (w_late :: w_ops3) (w_decided w_retry))
-  = ([(Some S_FAILED, [(("t2", 0), false)], Some (("t2", 0), 1), true)], S_FAILED, ["t2"], 2).
+  = ([(Some S_SUCCEEDED, [(("t2", 0), true)], Some (("t2", 0), 1), false)], S_RUNNING, ["t2"], 2).
 Proof. vm_compute. reflexivity. Qed.
 
-(* REFUTED without the retry hypothesis: every operation is a provider event or a poll, the record
-   is decided, and yet its status and its decision change *)
-Theorem decided_record_not_frozen_with_retries_left : exists r r',
+(* the former witness against dropping the retry hypothesis, with retries left: every operation is a provider event
+   or a poll, the record is decided, and its status and its decision stay *)
+Theorem decided_record_kept_with_retries_left : exists r r',
   nth_error (sequence (c_ws (w_decided w_retry))) 0 = Some r /\ decided r /\ retry_open r /\
   forallb op_static (w_late :: w_ops3) = true /\
   nth_error (sequence (c_ws (run_ops ev_w (w_late :: w_ops3) (w_decided w_retry)))) 0 = Some r' /\
-  r_status r = Some S_SUCCEEDED /\ r_status r' = Some S_FAILED /\
-  r_next r = [(("t2", 0), true)] /\ r_next r' = [(("t2", 0), false)].
+  r_status r = Some S_SUCCEEDED /\ r_status r' = Some S_SUCCEEDED /\
+  r_next r = [(("t2", 0), true)] /\ r_next r' = [(("t2", 0), true)].
 Proof.
   eexists; eexists. split; [vm_compute; reflexivity|].
   split; [vm_compute; reflexivity|].
@@ -1178,10 +1243,18 @@ Proof. vm_compute. reflexivity. Qed.
 
 (* a rerun keeps the decided record but resets its terminal flag and appends a new record:
    r_term is the one field that is not frozen *)
+Definition w_ops4 : list api_op :=
+  [OpGetNext; OpEvent "t2" 0 (EvAction S_RUNNING JNull); OpEvent "t2" 0 (EvAction S_FAILED JNull)].
+Example w_t2_failed :
+  w_obs (run_ops ev_w w_ops4 (w_decided w_retry))
+  = ([(Some S_SUCCEEDED, [(("t2", 0), true)], Some (("t2", 0), 1), false); (Some S_FAILED, [], None, true)],
+     S_FAILED, [], 2).
+Proof. vm_compute. reflexivity. Qed.
 Example w_rerun_resets_term_only :
-  w_obs (run_ops ev_w [OpRerun []] (run_ops ev_w (w_late :: w_ops3) (w_decided w_retry)))
-  = ([(Some S_FAILED, [(("t2", 0), false)], Some (("t2", 0), 1), false); (None, [], None, false)],
-     S_RESUMING, ["t2"; "t1"], 2).
+  w_obs (run_ops ev_w [OpRerun []] (run_ops ev_w w_ops4 (w_decided w_retry)))
+  = ([(Some S_SUCCEEDED, [(("t2", 0), true)], Some (("t2", 0), 1), false); (Some S_FAILED, [], None, false);
+      (None, [], None, false)],
+     S_RESUMING, ["t2"], 2).
 Proof. vm_compute. reflexivity. Qed.
 
 (* with retries left the record is still protected from everything that does not address it:
@@ -1213,6 +1286,36 @@ Lemma safe_unfold : forall i r0 c t route evt,
    exists s, get_staged_task (c_ws c) t route = Some s /\ s_completed s = false) \/
    (is_retry_event evt = false /\ ~ retry_open r0)).
 Proof. intros; split; intro H; exact H. Qed.
+
+Lemma safe_w_unfold : forall i c t route evt,
+  safe_w i c t route evt <->
+  (ws_task_idx (c_ws c) t route <> Some i \/ is_engine_command t = true \/
+   (c_init c = true /\ status_in (ev_status evt) STARTING_STATUSES = true /\
+   exists s, get_staged_task (c_ws c) t route = Some s /\ s_completed s = false) \/
+   is_retry_event evt = false).
+Proof. intros; split; intro H; exact H. Qed.
+
+Lemma op_safe_w_unfold : forall i c op,
+  op_safe_w i c op <->
+  match op with
+  | OpEvent t route evt => safe_w i c t route evt
+  | OpPersist => c_init c = true
+  | _ => True
+  end.
+Proof. intros; split; intro H; exact H. Qed.
+
+Lemma op_safe_w_spelled : forall i c op,
+  op_safe_w i c op <->
+  match op with
+  | OpEvent t route evt =>
+      ws_task_idx (c_ws c) t route <> Some i \/ is_engine_command t = true \/
+      (c_init c = true /\ status_in (ev_status evt) STARTING_STATUSES = true /\
+       exists s, get_staged_task (c_ws c) t route = Some s /\ s_completed s = false) \/
+      is_retry_event evt = false
+  | OpPersist => c_init c = true
+  | _ => True
+  end.
+Proof. intros i c op; destruct op; split; intro H; exact H. Qed.
 
 Lemma op_safe_unfold : forall i r0 c op,
   op_safe i r0 c op <->
